@@ -21,7 +21,7 @@ func init() {
 			"(R-UNIFY) unifyType has a case for every type the statement lists (int, int8, int16, int32, uint8..uint64, []int, []int32, time.Time, time.Duration) yielding int64 / []int64 built by conversion, .Unix() or division by the constant time.Second, element i from element i, and both fetcher constructors pass every bound value through it; " +
 			"(R-VARNODE) the variable node built by parseVariable carries the token's text as name and VariableKeyMap[that same text] as key, parseUnknownVariable uses UndefinedVarKey, and MapVarFetcher looks up by name / SliceVarFetcher by key. NOT decided: the value read end-to-end under permuted layouts; exhaustion of the int16 key space.",
 		Run:       runC11,
-		Witnesses: append(append([]Witness{}, delWitnessesC11...), c11Witnesses...),
+		Witnesses: append(append(append([]Witness{}, delWitnessesC11...), keySetShapeWitnesses...), c11Witnesses...),
 	})
 }
 
@@ -75,7 +75,8 @@ func ruleKeyStable(w *World, r *Report) {
 		if !ok || !isKeyMap(rg.X) {
 			return
 		}
-		if b, ok := constBool(mu.Value); ok && b {
+		_, isStructSet := mm.Type().Underlying().(*types.Map).Elem().Underlying().(*types.Struct)
+		if b, ok := constBool(mu.Value); (ok && b) || isStructSet {
 			// unconditional in the loop body: the update's block is the body entered on every element
 			hdr := nx.Block()
 			if edgeDominates(hdr, 0, mu.Block()) && loopVisitsAll(hdr, mu.Block()) {
@@ -115,7 +116,7 @@ func ruleKeyStable(w *World, r *Report) {
 		if keySet != nil {
 			free := false
 			for _, f := range factsAt(mu.Block()) {
-				lk, ok := f.Cond.(*ssa.Lookup)
+				lk, ok := setLookupOf(f.Cond)
 				if ok && lk.X == ssa.Value(keySet) && lk.Index == mu.Value && !f.Truth {
 					free = true
 				}
@@ -139,7 +140,7 @@ func ruleKeyStable(w *World, r *Report) {
 				facts := append(factsAt(pred), factsAtEdgeTo(pred, kphi.Block())...)
 				free := false
 				for _, f := range facts {
-					lk, ok := f.Cond.(*ssa.Lookup)
+					lk, ok := setLookupOf(f.Cond)
 					if ok && lk.X == ssa.Value(keySet) && !f.Truth && (lk.Index == e || sameValueShape(lk.Index, e)) {
 						free = true
 					}
@@ -293,7 +294,7 @@ func pigeonholeVal(fn *ssa.Function, val ssa.Value, reached func(b *ssa.BasicBlo
 			}
 			taken := false
 			for _, f := range append(factsAt(p), factsAtEdgeTo(p, b)...) {
-				lk, ok := f.Cond.(*ssa.Lookup)
+				lk, ok := setLookupOf(f.Cond)
 				if ok && lk.X == ssa.Value(keySet) && f.Truth {
 					if c, ok := lk.Index.(*ssa.Convert); ok && c.X == ssa.Value(phi) {
 						taken = true
@@ -349,7 +350,7 @@ func mergedScanShape(fn *ssa.Function, mu *ssa.MapUpdate, keySet *ssa.MakeMap, i
 		}
 		inRange, taken := false, false
 		for _, f := range append(factsAt(p), factsAtEdgeTo(p, hdr)...) {
-			if lk, ok := f.Cond.(*ssa.Lookup); ok && lk.X == ssa.Value(keySet) && f.Truth {
+			if lk, ok := setLookupOf(f.Cond); ok && lk.X == ssa.Value(keySet) && f.Truth {
 				if c, ok := lk.Index.(*ssa.Convert); ok && c.X == ssa.Value(phi) {
 					taken = true
 				}
@@ -373,7 +374,7 @@ func mergedScanShape(fn *ssa.Function, mu *ssa.MapUpdate, keySet *ssa.MakeMap, i
 	// the assignment is reached only because the candidate is free or the scan is exhausted — on every way in
 	exitOK := func(facts []Fact) bool {
 		for _, f := range facts {
-			if lk, ok := f.Cond.(*ssa.Lookup); ok && lk.X == ssa.Value(keySet) && !f.Truth {
+			if lk, ok := setLookupOf(f.Cond); ok && lk.X == ssa.Value(keySet) && !f.Truth {
 				if c, ok := lk.Index.(*ssa.Convert); ok && c.X == ssa.Value(phi) {
 					return true
 				}
@@ -537,7 +538,7 @@ func ruleFetchGate(w *World, r *Report) {
 	undefOK := false
 	for _, ret := range allReturns(fn) {
 		for _, f := range factsAt(ret.Block()) {
-			lk, ok := f.Cond.(*ssa.Lookup)
+			lk, ok := setLookupOf(f.Cond)
 			if !ok || !f.Truth {
 				continue
 			}
@@ -892,6 +893,10 @@ func classifyUnify(res ssa.Value, v ssa.Value) string {
 		if bt, ok := sl.Elem().Underlying().(*types.Basic); ok && bt.Kind() == types.Int64 {
 			ms, ok := x.(*ssa.MakeSlice)
 			if !ok {
+				// the same list built by appending: temp := make([]int64, 0, …); for _, iv := range v { temp = append(temp, int64(iv)) }
+				if unifyAppendForm(x, v) {
+					return "slice"
+				}
 				return "?slice"
 			}
 			if a, ok := lenArg(ms.Len); !ok || a != v {
@@ -1156,4 +1161,110 @@ var c11Witnesses = []Witness{
 		{File: "variable.go", Old: "	for i := 1; i <= size; i++ {\n		key := VariableKey(i)\n		if !keySet[key] {\n			cc.VariableKeyMap[name] = key\n			return key\n		}\n	}", New: "	for cand := 1; cand <= size; cand++ {\n		k := VariableKey(cand)\n		if taken := keySet[k]; taken {\n			continue\n		}\n		cc.VariableKeyMap[name] = k\n		return k\n	}"}}},
 	{Name: "benign-fetch-gate-reordered", Benign: true, Edits: []Edit{
 		{File: "variable.go", Old: "	if minKey <= maxKey && 0 <= minKey && maxKey < 256 {", New: "	if maxKey <= 255 && minKey >= 0 && maxKey >= minKey {"}}},
+}
+
+
+// setLookupOf: the membership test behind a branch condition — `set[k]` on a bool-valued set, or the second result of
+// `_, ok := set[k]`.
+func setLookupOf(v ssa.Value) (*ssa.Lookup, bool) {
+	switch x := v.(type) {
+	case *ssa.Lookup:
+		return x, !x.CommaOk
+	case *ssa.Extract:
+		if lk, ok := x.Tuple.(*ssa.Lookup); ok && x.Index == 1 && lk.CommaOk {
+			return lk, true
+		}
+	}
+	return nil, false
+}
+
+
+// unifyAppendForm: x is the loop-carried list of a range loop over v that starts empty and, on every iteration, appends
+// exactly the conversion of the element at the range index; x is read only over the exit edge of that loop.
+func unifyAppendForm(x, v ssa.Value) bool {
+	phi, ok := x.(*ssa.Phi)
+	if !ok || len(phi.Edges) != 2 {
+		return false
+	}
+	hdr := phi.Block()
+	var base, step ssa.Value
+	for i, e := range phi.Edges {
+		if hdr.Dominates(hdr.Preds[i]) {
+			step = e
+		} else {
+			base = e
+		}
+	}
+	ms, ok := base.(*ssa.MakeSlice)
+	if !ok {
+		return false
+	}
+	if c, okc := constInt(ms.Len); !okc || c != 0 {
+		return false
+	}
+	app, ok := isAppendCall(step)
+	if !ok || app.Call.Args[0] != ssa.Value(phi) || len(app.Call.Args) != 2 {
+		return false
+	}
+	// the appended variadic slice holds one element: int64(v[rangeindex])
+	sl, ok := app.Call.Args[1].(*ssa.Slice)
+	if !ok {
+		return false
+	}
+	arr, ok := sl.X.(*ssa.Alloc)
+	if !ok {
+		return false
+	}
+	at, ok := deref(arr.Type()).Underlying().(*types.Array)
+	if !ok || at.Len() != 1 {
+		return false
+	}
+	okElem := false
+	for _, ref := range referrers(arr) {
+		ia, ok := ref.(*ssa.IndexAddr)
+		if !ok {
+			continue
+		}
+		for _, ref2 := range referrers(ia) {
+			st, ok := ref2.(*ssa.Store)
+			if !ok || st.Addr != ssa.Value(ia) {
+				continue
+			}
+			cv, ok := st.Val.(*ssa.Convert)
+			if !ok {
+				return false
+			}
+			addr, ok := isLoad(cv.X)
+			if !ok {
+				return false
+			}
+			src, ok := addr.(*ssa.IndexAddr)
+			if !ok || src.X != v {
+				return false
+			}
+			h2, okh := rangeIndexHeader(src.Index, v)
+			if !okh || h2 != hdr {
+				return false
+			}
+			okElem = true
+		}
+	}
+	if !okElem {
+		return false
+	}
+	// on every iteration, and nothing leaves the loop early
+	for _, p := range hdr.Preds {
+		if hdr.Dominates(p) && !app.Block().Dominates(p) {
+			return false
+		}
+	}
+	for _, use := range referrers(phi) {
+		if use == ssa.Instruction(app) {
+			continue
+		}
+		if !edgeDominates(hdr, 1, use.Block()) {
+			return false
+		}
+	}
+	return true
 }
